@@ -5,7 +5,8 @@
   * index bookkeeping of the algorithm AS CODED: modulus switch of the LWE sample to `2N`
     (`modSwitchRLWETo2NLvl`), reversal/negation and rotation of the mask, the discrete-log table
     (`getGaloisElementInverseMap`), the classes (`getDiscreteLogSets`) and the accumulator loop
-    (`BlindRotateCore`, `evaluateFromDiscreteLogSets`, window 10) flattened into a SCHEDULE: the list of
+    (`BlindRotateCore`, `evaluateFromDiscreteLogSets`, window 10; with the fix C20-5: the class of `−1`
+    filed under `2N`, zero coefficients skipped) flattened into a SCHEDULE: the list of
     operations (`aut g` = `Automorphism(acc, g, acc)`, `mul j` = external product by the key of index `j`)
     the evaluator performs, in order.
   * the exponent semantics of a schedule (`runExp`): the accumulator holds `φ_t(F)·X^u`.
@@ -49,9 +50,11 @@ def mulBySmallMonomial (twoN : Nat) (a : List Nat) (n : Nat) : List Nat :=
 /-- `5^i mod 2N` -/
 def powG (N i : Nat) : Nat := galoisGen ^ i % (2 * N)
 
-/-- `getGaloisElementInverseMap(5, N)`: the assignments in program order -/
+/-- `getGaloisElementInverseMap(5, N)`: the assignments in program order; the last one re-files
+    `−5^0 = 2N − 1` (which the loop stored as `−0 = 0`, the class of `+1`) under the key `2N`. -/
 def dlogTable (N : Nat) : List (Nat × Int) :=
-  (List.range (N / 2)).flatMap fun i => [(powG N i, (i : Int)), (2 * N - powG N i, -(i : Int))]
+  ((List.range (N / 2)).flatMap fun i => [(powG N i, (i : Int)), (2 * N - powG N i, -(i : Int))])
+    ++ [(2 * N - 1, ((2 * N : Nat) : Int))]
 
 /-- map lookup (the LAST assignment of a key wins; a missing key yields Go's zero value `0`) -/
 def dlog (N a : Nat) : Int :=
@@ -59,9 +62,10 @@ def dlog (N a : Nat) : Int :=
   | some kv => kv.2
   | none => 0
 
-/-- `getDiscreteLogSets(a)[k]`: the indices `i` with `dlog(a_i) = k`, ascending (`nil` = no entry) -/
+/-- `getDiscreteLogSets(a)[k]`: the indices `i` with `a_i ≠ 0` (zero coefficients are skipped) and
+    `dlog(a_i) = k`, ascending (`nil` = no entry) -/
 def setOf (N : Nat) (a : List Nat) (k : Int) : List Nat :=
-  (List.range a.length).filter fun i => dlog N (a.getD i 0) == k
+  ((List.range a.length).filter fun i => a.getD i 0 != 0).filter fun i => dlog N (a.getD i 0) == k
 
 /-- `getDiscreteLogSets` panics on an even non-zero entry -/
 def maskOk (a : List Nat) : Bool := a.all fun x => x % 2 == 1 || x == 0
@@ -94,13 +98,19 @@ def loopLevels (N : Nat) (a : List Nat) (sgn : Int) : Nat → Nat → List Step 
     let rest := loopLevels N a sgn i r.2
     (r.1 ++ rest.1, rest.2)
 
-/-- `BlindRotateCore(a, acc, BRK)`: negative classes `k = −(N/2−1) … −1`, the call for key `2N` with
-    `v = 0` (its result is dropped), `Automorphism(acc, 2N−5)`, positive classes with the `v` LEFT BY THE
-    NEGATIVE LOOP, the class `0` with `v = 0`. -/
+/-- the class of `−5^0 = 2N − 1` (key `2N`): no power of `5` follows it, so the pending automorphism is
+    applied first and `v` is not incremented (the inlined block of `BlindRotateCore`) -/
+def midLevel (N : Nat) (a : List Nat) (v : Nat) : List Step × Nat :=
+  let set := setOf N a ((2 * N : Nat) : Int)
+  if set.isEmpty then ([], v)
+  else ((if v ≠ 0 then [Step.aut (galEl N v)] else []) ++ set.map Step.mul, 0)
+
+/-- `BlindRotateCore(a, acc, BRK)`: negative classes `k = −(N/2−1) … −1`, the class `2N` (`= −5^0`),
+    `Automorphism(acc, 2N−5)`, positive classes with the `v` left so far, the class `0` with `v = 0`. -/
 def coreSchedule (N : Nat) (a : List Nat) : List Step :=
   let neg := loopLevels N a (-1) (N / 2 - 1) 0
-  let mid := evalLevel N a (2 * N : Nat) 0
-  let pos := loopLevels N a 1 (N / 2 - 1) neg.2
+  let mid := midLevel N a neg.2
+  let pos := loopLevels N a 1 (N / 2 - 1) mid.2
   let last := evalLevel N a 0 0
   neg.1 ++ mid.1 ++ [Step.aut (2 * N - galoisGen)] ++ pos.1 ++ last.1
 
@@ -116,10 +126,13 @@ def runExp (s : Nat → Int) : List Step → Int × Int → Int × Int
   | [], x => x
   | st :: rest, x => runExp s rest (stepExp s st x)
 
-/-- the value `±5^k` a mask coefficient is TREATED as (its class) -/
+/-- the value a mask coefficient is TREATED as (by its class): `0` if it is zero, `−1` for the class `2N`,
+    `±5^{|k|}` for the class `k` -/
 def eff (N a : Nat) : Int :=
   let k := dlog N a
-  if k < 0 then -((powG N k.natAbs : Nat) : Int) else ((powG N k.natAbs : Nat) : Int)
+  if a = 0 then 0
+  else if k = ((2 * N : Nat) : Int) then -1
+  else if k < 0 then -((powG N k.natAbs : Nat) : Int) else ((powG N k.natAbs : Nat) : Int)
 
 /-- the mask of slot `index`, and its `b`: everything `Evaluate` derives from the LWE sample.
     `c0`, `c1` the coefficients (in `[0, Q)`) of the sample, `idxs` the requested slots ascending. -/
@@ -151,11 +164,11 @@ def runSteps {γ : Type} (autOp : Nat → γ → γ) (mulOp : Nat → γ → γ)
   | Step.mul j :: rest, x => runSteps autOp mulOp rest (mulOp j x)
 
 /-- centred single-modulus digits of `gadgetProductSinglePAndBitDecompLazy` when `BaseTwoDecomposition = 0`:
-    `DecomposeAndSplit(levelQ, levelP, levelP+1, i, …)`; its source row is `i·(levelP+1)`, which is row `0`
-    for every `i` when there is no auxiliary modulus (as coded). -/
+    `DecomposeAndSplit(levelQ, levelP, 1, i, …)`: the source row is `i` (since 3f60e57 also without
+    auxiliary modulus). -/
 def digitsCentred1 (p : Par) (c : RPoly) : List RPoly :=
   (List.range p.rnsSize).map fun i =>
-    let k := i * p.nP
+    let k := i
     let q := p.qsQ.getD k 1
     RPoly.ofInts p.qsQP ((c.c.getD k []).map fun x => centredDigit [q] [x])
 
